@@ -25,3 +25,17 @@ def used_classes():
         raise RuntimeError("cannot compile class enumerator: " + r.stderr[-400:])
     out = subprocess.run([exe], capture_output=True, text=True, timeout=60).stdout.split()
     return [int(x) for x in out]
+
+
+def used_small_bins():
+    """bin numbers of the size classes in the range of the real _mi_bin whose block size is at most MI_SMALL_SIZE_MAX (these have entries in the direct table)"""
+    d = os.path.join(VERIF, ".build", "common")
+    os.makedirs(d, exist_ok=True)
+    src = os.path.join(d, "bins.c")
+    open(src, "w").write('#include "src/static.c"\n#include <stdio.h>\n'
+                         'int main(void){ size_t last=0; for (size_t s=1; s<=MI_SMALL_SIZE_MAX; s++){ size_t b=_mi_bin(s); if (b!=last){ printf("%zu\\n", b); last=b; } } return 0; }\n')
+    exe = os.path.join(d, "bins")
+    r = subprocess.run(["gcc", "-O1", "-w", "-DMI_BUILD_RELEASE", "-DNDEBUG", "-I" + REPO, "-I" + os.path.join(REPO, "include"), src, "-o", exe, "-lpthread"], capture_output=True, text=True)
+    if r.returncode != 0:
+        raise RuntimeError("cannot compile bin enumerator: " + r.stderr[-400:])
+    return [int(x) for x in subprocess.run([exe], capture_output=True, text=True, timeout=60).stdout.split()]
